@@ -6,6 +6,47 @@ import (
 
 // C16 — audio payloaders split losslessly; Opus is passed through.
 
+// c16Earlier draws the calls a payloader has already served when the observed call arrives: an
+// application keeps ONE payloader per stream and hands it every frame, so "for every input" includes
+// an input that follows other inputs on the same instance.  k earlier calls; their lengths come from
+// the same classes as the observed one (nil, empty, 1–3 bytes — comfort-noise / DTX sized frames —,
+// the observed length itself, around the MTU, anything), mostly with the observed MTU.
+func c16Earlier(r *Rand, k, mtu, n int) []PayCall {
+	calls := make([]PayCall, 0, k)
+	for j := 0; j < k; j++ {
+		m := mtu
+		if r.Chance(1, 4) {
+			m = r.Pick(1, 2, 1200, 65535, r.Range(1, 65535))
+		}
+		var in []byte
+		if !r.Chance(1, 12) {
+			ln := r.Pick(0, 1, 1, 2, 2, 3, n, n, r.Size(3000, m, 2*m))
+			if ln > 10000 {
+				ln = 10000
+			}
+			in = r.Bytes(ln)
+		}
+		calls = append(calls, PayCall{uint16(m), in})
+	}
+	return calls
+}
+
+// c16Observe writes the earlier calls to the input, replays them on ONE instance (and on its pristine
+// twin) and then observes the call under test on that same instance.
+func c16Observe(c *Case, mk func() payloader, earlier []PayCall, mtu int, in []byte) {
+	writeCalls(&c.I, earlier)
+	p, twin := mk(), mk()
+	for _, e := range earlier {
+		observePayDeferred(p, twin, e.MTU, e.Input)
+	}
+	if len(earlier) > 0 {
+		c.Tag("reused-payloader")
+	} else {
+		c.Tag("fresh-payloader")
+	}
+	observePay(&c.O, p, twin, uint16(mtu), in)
+}
+
 func genSplit(mk func() payloader) func(x *Ctx) {
 	return func(x *Ctx) {
 		one := func(mtu int, n int, nilIn bool) {
@@ -28,7 +69,12 @@ func genSplit(mk func() payloader) func(x *Ctx) {
 				default:
 					c.Tag("len>mtu")
 				}
-				observePay(&c.O, mk(), mk(), uint16(mtu), in)
+				// the grids: one case in three on an instance that has served one or two calls before
+				var earlier []PayCall
+				if mtu > 0 && c.R.Chance(1, 3) {
+					earlier = c16Earlier(c.R, c.R.Pick(1, 2), mtu, n)
+				}
+				c16Observe(c, mk, earlier, mtu, in)
 			})
 		}
 		// complete grid: every (length, MTU) with both ≤ G
@@ -76,7 +122,7 @@ func genSplit(mk func() payloader) func(x *Ctx) {
 				} else {
 					c.Tag("len>mtu")
 				}
-				observePay(&c.O, mk(), mk(), uint16(mtu), in)
+				c16Observe(c, mk, c16Earlier(c.R, c.R.Pick(0, 0, 1, 1, 2, 3), mtu, ln), mtu, in)
 			})
 		}
 	}
@@ -86,7 +132,8 @@ func init() {
 	register("c16.g711", "C16", genSplit(func() payloader { return &codecs.G711Payloader{} }))
 	register("c16.g722", "C16", genSplit(func() payloader { return &codecs.G722Payloader{} }))
 	register("c16.opus", "C16", func(x *Ctx) {
-		one := func(mtu, n int, nilIn bool) {
+		mkOpus := func() payloader { return &codecs.OpusPayloader{} }
+		one := func(mtu, n int, nilIn bool, hist int) {
 			x.Case(func(c *Case) {
 				var in []byte
 				if !nilIn {
@@ -96,13 +143,16 @@ func init() {
 				if n == 0 {
 					c.Trivial()
 				}
-				observePay(&c.O, &codecs.OpusPayloader{}, &codecs.OpusPayloader{}, uint16(mtu), in)
+				c16Observe(c, mkOpus, c16Earlier(c.R, hist, mtu, n), mtu, in)
 			})
 		}
+		// every length 0–20 (and nil) × a few MTUs, on a fresh payloader and after 1, 2 earlier calls
 		for _, mtu := range []int{0, 1, 2, 10, 1200, 65535} {
-			one(mtu, 0, true)
-			for n := 0; n <= 20; n++ {
-				one(mtu, n, false)
+			for hist := 0; hist <= 2; hist++ {
+				one(mtu, 0, true, hist)
+				for n := 0; n <= 20; n++ {
+					one(mtu, n, false, hist)
+				}
 			}
 		}
 		for i, n := 0, x.N(2000, 100000); i < n; i++ {
@@ -113,7 +163,7 @@ func init() {
 				if len(in) == 0 {
 					c.Trivial()
 				}
-				observePay(&c.O, &codecs.OpusPayloader{}, &codecs.OpusPayloader{}, uint16(mtu), in)
+				c16Observe(c, mkOpus, c16Earlier(c.R, c.R.Pick(0, 0, 1, 1, 2, 3), mtu, len(in)), mtu, in)
 			})
 		}
 	})
